@@ -70,7 +70,7 @@ PROPS = {
     ),
     "C18": dict(
         level="proof",
-        specs=["specs.c18_context"],
+        specs=["specs.c18_context", "specs.c17_purity"],      # (c17_purity: the ownership contract of Context.__init__, tagged C18)
         bounded=["bounded.c18_context"],
         trusted=["specs/c19_spinn5.py tile model (shared with C19)"],
     ),
@@ -115,7 +115,7 @@ PROPS = {
     ),
     "C01": dict(
         level="exploration",
-        specs=["specs.c03_route"],
+        specs=["specs.c03_route", "specs.c04_minimise"],       # premises: the router's dead-hardware test, every contract of the minimisers
         bounded=["bounded.c01_delivery"],
     ),
     "C17": dict(
